@@ -31,9 +31,12 @@ ASSUMPTIONS = [
     'PROVED (Lean, about the model): T1 C12_interleaving_independent* / C12_schedule_independent / C12_shared_unchanged / '
     'C12_no_observation_of_others; T2 C12_gil_discipline_* ; T2/T3 over the tables extracted from the current sources: '
     'C12_release_sites_disciplined, C12_no_shared_writes, C12_python_globals_benign (no exception list); T4 about the '
-    'address-level access programs of erode / convolve / label / cwatershed / labeled_foldl: C12_kernel_confined, '
-    'C12_concurrent_kernels_independent, value ties C12_{erode,convolve,labeled_fold}_program_computes_model '
-    '(label / cwatershed: read/write sets only, C12_label_cwatershed_traces_partial)',
+    'address-level access programs of erode / convolve / label / cwatershed / labeled_foldl (and, second table, dilate / '
+    'rank_filter / template_match / cooccurence / dist_transform / borders / thin / zoom_shift): C12_kernel_confined, '
+    'C12_more_kernels_confined, C12_kernel_roles_wellformed, C12_more_kernels_roles_ok, C12_concurrent_kernels_independent, '
+    'C12_concurrent_calls_independent, C12_exception_paths_release_nothing, value ties '
+    'C12_{erode,convolve,labeled_fold,label,cwatershed,template_match,rank_filter,dilate,cooccurence,borders}_program_computes_model '
+    '(distance / thin / zoom_shift: read/write sets only)',
     'VALIDATED ONLY (thread stress samples schedules, it does not enumerate them): that the compiled kernels perform the '
     'accesses of those access programs, i.e. are confined (touch only their arguments, outputs and locals), data races '
     'inside C++ and CPython/numpy guarantees',
